@@ -11,7 +11,7 @@ RULE = (
     "with independently chosen units (one per quantity type) and categories, each built either directly "
     "(CreateDerived) or by multiplying/dividing leaf Scalars, finite values, + or -, Scalar or Array "
     "(list/tuple/ndarray). Oracle (independent model): result quantity == left operand's quantity and value == "
-    "a.value +/- b.value*prod((slope(u_b)/slope(u_a))**E) (rel 1e-9 of |a|+|b'|); (a+b)-b ~ a; mag(a+b) ~ mag(b+a). "
+    "a.value +/- b.value*prod((slope(u_b)/slope(u_a))**E) (rel 1e-9 of |a|+|b'|); (a+b)-b ~ a (Scalars and Arrays), a op b twice on the same operand objects gives the same values; mag(a+b) ~ mag(b+a). "
     "Simple exponent-1 quantities additionally over affine units against a.value +/- Convert(u_b->u_a, b.value). "
     "Non-trivial = operands differ in a unit of a shared type and (some |exponent|>=2 or >=2 quantity types); "
     "distinct key = (instance a, instance b, op, container)."
@@ -97,6 +97,20 @@ class Checker:
                     case,
                     "%r %s %r = %r; expected value %r (b re-expressed in a's units = %r, ratio %r)" % (a, op, b, r, want, conv, ratio),
                 )
+        # the same operand objects once more: a second a op b gives the same values, and the operands still hold
+        # what they held (an addition that rescales an operand's container while matching units shows up here)
+        r_again = a + b if op == "+" else a - b
+        ctx.ev()
+        rv2 = [r_again.GetValue()] if kind == "scalar" else list(r_again.GetValues())
+        if [float(x) for x in rv2] != [float(x) for x in rv]:
+            ctx.fail("sum_not_repeatable:%s" % key_suffix, case, "the same %r %s %r computed twice gives %r and then %r" % (a, op, b, rv, rv2))
+        if kind != "scalar":
+            back = (r - b) if op == "+" else (r + b)
+            ctx.ev()
+            for x, y, got in zip(va, vb, list(back.GetValues())):
+                if not core.close(got, x, abs(x) + 2 * abs(y * ratio), 1e-9):
+                    ctx.fail("add_then_subtract_not_identity:%s" % key_suffix, case, "((a %s b) inverse b) = %r, a = %r" % (op, back, a))
+                    break
         # (a+b)-b ~ a   and   a+b ~ b+a (physical amount)
         if kind == "scalar":
             back = (r - b) if op == "+" else (r + b)
